@@ -114,7 +114,7 @@ PROPS = {
                  "(operation sequence with outcomes, final registry)."
                  " Free-running mix: three peers, each with a subscription request or delete for its own server feature at the same moment; every request takes effect and a data change on each server feature notifies exactly the peer whose subscription is in force."),
         "assumptions": ["special role is accepted on both sides of a subscription (as in the repository's NodeManagement fixture)",
-                        "Generic feature types and client addresses naming a foreign device are not generated (DESIGN §4 C08 NA)",
+                        "a feature of the type Generic stands for any feature type on either side of a request (function_data_factory.go, checkRoleAndType); client addresses naming a foreign device are not generated",
                         "whether a remote write is accepted is observed from its result, not predicted (C03/C04 own the gate)"],
         "runs": [
             {"name": "subs", "run": "TestSubscriptions", "kind": "rapid", "checks": {Q: 8000, T: 400000}, "shards": {Q: 4, T: 16}, "steps": {Q: 20, T: 40}},
@@ -132,7 +132,7 @@ PROPS = {
                  "rounds. Non-trivial: a client holds >=2 bindings or two clients contend for one feature; schedule: >=2 requests inside "
                  "the window together. Distinct by (operation sequence with outcomes, final registry) / schedule choice vector."
                  "Free-running mix (shared with C03): three peers, each with a bind or a binding delete for its own server feature at the same moment; every request takes effect, the registry holds exactly the granted and not deleted bindings, and a following write of each peer is served or refused accordingly."),
-        "assumptions": ["special role accepted on both sides; Generic types not generated",
+        "assumptions": ["special role accepted on both sides; a feature of the type Generic stands for any feature type (function_data_factory.go, checkRoleAndType)",
                         "schedule enumeration is exhaustive only over the instrumented window (build tag verif); elsewhere stress"],
         "runs": [
             {"name": "bindings", "run": "TestBindings", "kind": "rapid", "checks": {Q: 8000, T: 320000}, "shards": {Q: 4, T: 16}, "steps": {Q: 20, T: 40}},
@@ -408,3 +408,23 @@ PROPS = {
         ],
     },
 }
+
+# what the generators were widened by after the fifth round of seeded changes (appended to the rules above)
+_RULE_ADDENDA = {
+    "C03": " Rediscovery: discovery data of entities the stack already knows is processed again (second reply, 'added' notification) between the other operations; nothing disappears by it.",
+    "C04": " Full writes and the stored list come in any element order; the two filters of a combined write come in either order.",
+    "C05": " The peers announce a sub-entity; in one of seven environments the first peer's connection has been removed before its messages arrive (still in flight); after every case the application changes the data of both server features on its own goroutine (a panic or a call that does not return there is the stack's), and a removed peer connects again.",
+    "C06": " In a fifth of the cases (and after a quarter of the reconnects) a peer's initial discovery reply is late: its notifications are applied before it (entity [0] is compared from the reply on).",
+    "C07": " AddFeature stress: 4 AddFeature and 4 GetOrAddFeature calls for one type and role leave a spinning rendezvous together; one feature of that type and role results and everybody gets that one.",
+    "C08": " Overlapping changes: the data of a second server feature changes inside the write of the first notification of another change (harness-owned schedule); per changed feature exactly its subscribers are notified with its data.",
+    "C11": " In a third of the histories the observer stays quiet: it obtains nothing further while the updates run (the reference fold stands in for the stored list when updates are drawn), so only the stack's own accesses touch the stores between the data sets being handed out and the later updates.",
+    "C12": " A quarter of the writes carry a destination address without device part; in the reconnect test the first write may run into its time-out before the connection goes; cases in which the machine delivers the verdicts too slowly are discarded, never judged.",
+    "C13": " Overlap: further notifications run to completion while one notification is held inside the connection's write (state machine action and 54 enumerated scenarios around a full cache).",
+    "C14": " A third of the error results carry no description (identified by a unique error number). A constructed-valid reply that a registered callback is waiting for must not be refused.",
+    "C16": " Slow subscriber: the connection may stay slow after the stall (every write takes 1.25 periods), so that a tick is due whenever a refresh has been notified.",
+    "C17": " Storm outbound-requests-on-two-connections: one local client feature subscribes / binds to two peers at once against entity removals.",
+    "C18": " The tolerance for relative period ends applies to payload periods only; the timestamp interval of a selector is compared exactly.",
+    "C20": " A third of the re-created entities are not handed to the device at once (use cases are declared before device.AddEntity).",
+}
+for _k, _v in _RULE_ADDENDA.items():
+    PROPS[_k]["rule"] += _v
